@@ -1,6 +1,7 @@
 package gen
 
 import (
+	"bwverif/cv"
 	"math"
 	"math/rand"
 	"time"
@@ -138,7 +139,9 @@ func Universe(rng *rand.Rand, n int) []*triple.Triple {
 			p = MustTemp(id, []time.Time{TFarFuture, TFarPast}[rng.Intn(2)])
 		}
 		t := MustTriple(ns[rng.Intn(len(ns))], p, objs[rng.Intn(len(objs))])
-		k := t.String()
+		// distinctness is decided on the accessor-based canonical form, never on
+		// the printed form of the code under observation
+		k := cv.Triple(t)
 		if !seen[k] {
 			seen[k] = true
 			res = append(res, t)
